@@ -1,5 +1,119 @@
-"""C08 — see DESIGN.md; shared machinery in scope_common.py"""
-import scope_common
+"""C08 — see DESIGN.md; shared machinery in scope_common.py.
+
+Besides the SL correspondence a verdict + execution matrix covers what the SL language does not contain: method callees,
+method bodies, match arms, the Exception-only rule for declared classes, and what the emitted try/except really catches.
+Expected verdicts are read off the property statement: a raising call / raise statement inside a body is accepted iff the
+raised class is (a descendant of) a declared class or of a class of an arm of an enclosing handle."""
+import scope_common, sweep
+
+PRELUDE = '''class E1(def msg: Str): Exception(msg)
+class E2(def msg: Str): E1(msg)
+class E3(def msg: Str): Exception(msg)
+class NotE(def a: Int)
+def g1(x: Int) -> Int raise [E1] =>
+    if x > 0 then raise E1("p")
+    x
+def g2(x: Int) -> Int raise [E2] =>
+    if x > 0 then raise E2("q")
+    x
+class K
+    def mr(self, x: Int) -> Int raise [E1] =>
+        if x > 0 then raise E1("p")
+        x
+'''
+ANC = {"E1": ["E1", "Exception"], "E2": ["E2", "E1", "Exception"], "E3": ["E3", "Exception"]}
+CALLEES = {"fun-E1": ("g1(x)", "E1"), "fun-E2": ("g2(x)", "E2"), "method-E1": ("K().mr(x)", "E1")}
+COVERS = [("none", None, None), ("decl-exact", "decl", "="), ("decl-ancestor", "decl", "Exception"), ("decl-E2", "decl", "E2"), ("decl-E3", "decl", "E3"),
+          ("handle-exact", "handle", "="), ("handle-ancestor", "handle", "Exception"), ("handle-E2", "handle", "E2"), ("handle-E3", "handle", "E3"),
+          ("handle-E3-then-E1", "handle2", "E1")]
+POSITIONS = ["init", "if", "else", "for", "while", "match-arm", "nested-if-for"]
+
+
+def body_lines(pos, expr, arms):
+    """lines of the function body (relative indentation) that evaluate expr at the position, printing its value"""
+    core = ["def r: Int := " + expr + (" handle" if arms else "")] + ["    " + a for a in arms] + ["print(r)"]
+    ind = lambda ls, n=1: ["    " * n + l for l in ls]
+    if pos == "init":
+        return core
+    if pos == "if":
+        return ["if x >= 0 then"] + ind(core)
+    if pos == "else":
+        return ["if x < 0 then", "    print(0)", "else"] + ind(core)
+    if pos == "for":
+        return ["for i in 0 .. 2 do"] + ind(core)
+    if pos == "while":
+        return ["def go := True", "while go do"] + ind(core + ["go := False"])
+    if pos == "match-arm":
+        if arms:
+            return ["def r: Int := match x", "    5 => 5", "    _ => " + expr + " handle"] + ["        " + a for a in arms] + ["print(r)"]
+        return ["def r: Int := match x", "    5 => 5", "    _ => " + expr, "print(r)"]
+    if pos == "nested-if-for":
+        return ["for i in 0 .. 1 do", "    if x >= 0 then"] + ind(core, 2)
+    raise ValueError(pos)
+
+
+def matrix():
+    """-> [(label, text, expected verdict, expected (prints, outcome) | None)]"""
+    out = []
+    for cname, (expr, raised) in CALLEES.items():
+        for cov, kind, cls in COVERS:
+            cls = raised if cls == "=" else cls
+            for pos in POSITIONS:
+                for encl in ("function", "method"):
+                    arms = []
+                    if kind == "handle":
+                        arms = ["err: %s => 7" % cls]
+                    elif kind == "handle2":
+                        arms = ["err: E3 => 8", "err: %s => 7" % cls]
+                    decl = " raise [%s]" % cls if kind == "decl" else ""
+                    covered = kind is not None and cls in ANC[raised]
+                    body = body_lines(pos, expr, arms) + ["x"]
+                    if encl == "function":
+                        text = PRELUDE + "def ff(x: Int) -> Int%s =>\n" % decl + "".join("    " + l + "\n" for l in body) + "print(ff(0))\nprint(ff(1))\n"
+                    else:
+                        text = PRELUDE + "class J\n    def ff(self, x: Int) -> Int%s =>\n" % decl + "".join("        " + l + "\n" for l in body) + "def j := J()\nprint(j.ff(0))\nprint(j.ff(1))\n"
+                    n = {"for": 2}.get(pos, 1)
+                    if covered and kind in ("handle", "handle2"):
+                        exp = (["0"] * n + ["0"] + ["7"] * n + ["1"], "ok")
+                    elif covered:
+                        exp = (["0"] * n + ["0"], "uncaught " + raised)
+                    else:
+                        exp = None
+                    out.append(("%s/%s/%s/%s" % (cname, cov, pos, encl), text, "accept" if covered else "reject", exp))
+    # raise statements
+    for raised in ("E1", "E2"):
+        for cov, kind, cls in COVERS:
+            if kind in ("handle", "handle2"):
+                continue
+            cls = raised if cls == "=" else cls
+            covered = kind is not None and cls in ANC[raised]
+            decl = " raise [%s]" % cls if kind == "decl" else ""
+            for form in ("stmt", "if", "for"):
+                st = {"stmt": ["raise %s(\"z\")" % raised], "if": ["if x > 0 then raise %s(\"z\")" % raised], "for": ["for i in 0 .. 2 do", "    if x > 0 then raise %s(\"z\")" % raised]}[form]
+                text = PRELUDE + "def ff(x: Int) -> Int%s =>\n" % decl + "".join("    " + l + "\n" for l in st + ["x"]) + ("print(ff(0))\n" if form != "stmt" else "") + "print(ff(1))\n"
+                exp = ((["0"] if form != "stmt" else []), "uncaught " + raised) if covered else None
+                out.append(("raise-%s/%s/%s" % (raised, cov, form), text, "accept" if covered else "reject", exp))
+    # a handle restores what was caught before it: declared classes stay covered after the handle and inside its arms,
+    # classes of an outer handle stay covered inside an inner one
+    for raised, decl in (("E1", "E1"), ("E2", "E1"), ("E1", "Exception"), ("E2", "E2")):
+        gname = {"E1": "g1", "E2": "g2"}[raised]
+        for arm in ("E1", "E2", "E3", "Exception"):
+            if arm not in ANC[raised]:
+                continue          # the guarded call itself must be covered by the arm or the declaration; keep it simple: arm covers it
+            t1 = PRELUDE + "def ff(x: Int) -> Int raise [%s] =>\n    def r: Int := %s(x) handle\n        err: %s => 7\n    print(r)\n    %s(x)\nprint(ff(0))\n" % (decl, gname, arm, gname)
+            out.append(("after-handle/%s/decl-%s/arm-%s" % (raised, decl, arm), t1, "accept", (["0", "0"], "ok")))
+            t2 = PRELUDE + "def ff(x: Int) -> Int raise [%s] =>\n    def r: Int := %s(x) handle\n        err: %s => %s(0)\n    r\nprint(ff(0))\nprint(ff(1))\n" % (decl, gname, arm, gname)
+            out.append(("inside-arm/%s/decl-%s/arm-%s" % (raised, decl, arm), t2, "accept", (["0", "0"], "ok")))
+            t3 = PRELUDE + ("def ff(x: Int) -> Int =>\n    def r: Int := %s(x) handle\n        err: %s =>\n            def q: Int := %s(0) handle\n                err2: %s => 8\n            q\n    r\nprint(ff(0))\nprint(ff(1))\n" % (gname, arm, gname, arm))
+            out.append(("handle-in-arm/%s/arm-%s" % (raised, arm), t3, "accept", (["0", "0"], "ok")))
+            t4 = PRELUDE + "def ff(x: Int) -> Int =>\n    def r: Int := %s(x) handle\n        err: %s => 7\n    print(r)\n    %s(x)\n" % (gname, arm, gname)
+            out.append(("after-handle-undeclared/%s/arm-%s" % (raised, arm), t4, "reject", None))
+    # only subclasses of Exception may be declared
+    for cls, ok in (("NotE", False), ("Int", False), ("Str", False), ("K", False), ("E2", True), ("Exception", True)):
+        out.append(("declare/%s" % cls, PRELUDE + "def ff(x: Int) -> Int raise [%s] => x\nprint(ff(0))\n" % cls, "accept" if ok else "reject", (["0"], "ok") if ok else None))
+    # top level is unchecked
+    out.append(("top-level/call", PRELUDE + "print(g1(0))\n", "accept", (["0"], "ok")))
+    return out
 
 
 def run(chk):
@@ -12,3 +126,50 @@ def run(chk):
     if not ok:
         return
     scope_common.run_scope(chk, ["raise"], "Raise", 60 if thorough else 14, 6 if thorough else 4)
+    cases = matrix()
+    if not thorough:
+        keep = [c for c in cases if "/init/" in c[0] or c[0].startswith(("raise-", "declare/", "top-level", "after-handle", "inside-arm", "handle-in-arm"))]
+        rest = [c for c in cases if c not in keep]
+        cases = keep + chk.rng.sample(rest, min(len(rest), 120))
+    res = sweep.transpile(chk, [c[1] for c in cases], annotate_both=False)
+    stats = {"accept_ok": 0, "reject_ok": 0, "executed": 0}
+    jobs = []
+    for (label, text, exp, run_exp), r in zip(cases, res):
+        got = "accept" if r[0][0] == "ok" else ("reject" if r[0][0] == "err" else "crash")
+        why = None
+        if got == "crash":
+            why = "%s: the checker crashes" % label
+        elif exp == "reject" and got == "accept":
+            why = "%s: an uncovered raise is ACCEPTED" % label
+        elif exp == "accept" and got == "reject" and scope_common.impl_class(r[0]) == "reject Other":
+            stats["inconclusive_other_type_error"] = stats.get("inconclusive_other_type_error", 0) + 1   # inference limitation (finding class of C05), not a raise verdict
+        elif exp == "accept" and got == "reject":
+            why = "%s: a declared or handled raise is REJECTED: %s" % (label, " ".join(r[0][1][0].split())[:200])
+        elif exp == "reject" and label.split("/")[0] != "declare" and scope_common.impl_class(r[0]) != "reject Raise":
+            why = "%s: rejected, but not for the uncovered raise: %s" % (label, " ".join(r[0][1][0].split())[:200])
+        else:
+            stats["accept_ok" if got == "accept" else "reject_ok"] += 1
+            if got == "accept" and run_exp is not None:
+                jobs.append((label, text, r[0][1], run_exp))
+        if why:
+            f = chk.known(label)
+            if f:
+                chk.report_known(f, why)
+            elif len(chk.violations) < 5:
+                chk.violation("input", why, case={"kind": "prog", "label": label, "text": text}, expected=exp, actual=str(r[0])[:600])
+    outs = sweep.run_python([j[2] for j in jobs])
+    for (label, text, py, (exp_lines, exp_outcome)), (lines, outcome) in zip(jobs, outs):
+        stats["executed"] += 1
+        if lines != exp_lines or outcome != exp_outcome:
+            why = "%s: the emitted try/except does not catch exactly the listed classes: prints %s / %s, expected %s / %s" % (label, lines, outcome, exp_lines, exp_outcome)
+            f = chk.known(label)
+            if f:
+                chk.report_known(f, why)
+            elif len(chk.violations) < 5:
+                chk.violation("input", why, case={"kind": "prog", "label": label, "text": text, "python": py}, expected={"prints": exp_lines, "outcome": exp_outcome},
+                              actual={"prints": lines, "outcome": outcome})
+    chk.cov["oracle"]["matrix"] = {"spec": "callee (function, method) x cover (none, declared exact/ancestor/descendant/unrelated, handled exact/ancestor/descendant/unrelated, two arms) x position x enclosing (function, method); raise statements; declared classes must descend from Exception; accepted programs executed: the arm runs exactly for covered classes",
+                                   "cases": len(cases), "stats": stats}
+    chk.cov["evaluations"] += len(cases)
+    chk.cov["distinct_nontrivial"] += len(cases)
+    chk.cov["rule"] += "; + verdict/execution matrix over callee kinds, covers, positions (init, if, else, for, while, match arm, nested) and enclosing function/method"
